@@ -3,7 +3,12 @@
 import json, os, sys
 HERE = os.path.dirname(os.path.abspath(__file__))
 sys.path.insert(0, HERE)
-from manifest_data import CHECKS, NOT_APPLICABLE, HOOK_COMMITS, NOTES
+from manifest_data import CHECKS, NOT_APPLICABLE, HOOK_COMMITS, NOTES, READY
+import importlib
+sys.path.insert(0, os.path.join(HERE, "..", "checks"))
+for pid in READY:
+    if pid not in CHECKS:
+        CHECKS[pid] = importlib.import_module(pid.lower()).MANIFEST
 
 props = [json.loads(l)["id"] for l in open(os.path.join(HERE, "..", "properties.jsonl"))]
 checks = []
